@@ -641,6 +641,81 @@ def pipe_facts(docs):
     return out
 
 
+
+# ------------------------------------------------------------------------------- scheduler teardown
+def teardown_facts(docs, tsdocs):
+    """WaitforAll's loop condition; the steps of WaitforAllAndShutdown; ~TaskScheduler calls it;
+       TaskSys.cpp: is the old scheduler drained (WaitforAll on g_ts) before g_ts is replaced"""
+    def method(name, kind="CXXMethodDecl"):
+        for d in docs:
+            for n, ps in astutil.walk(d):
+                if n.get("kind") == kind and n.get("name") == name and any(c.get("kind") == "CompoundStmt" for c in kids(n)):
+                    return n
+        return None
+
+    def callee(x):
+        k = kids(x)
+        for y, _ in astutil.walk(k[0]) if k else []:
+            nm = (y.get("referencedDecl") or {}).get("name") or (y.get("name") if y.get("kind") == "MemberExpr" else None)
+            if nm:
+                return nm
+        return None
+    wa = method("WaitforAll")
+    if wa is None:
+        raise FactError("TaskScheduler::WaitforAll not found")
+    loops = [x for x, _ in astutil.walk(wa) if x.get("kind") == "WhileStmt"]
+    cond = "LOther"
+    if len(loops) == 1:
+        c = kids(loops[0])[0]
+        while c.get("kind") in ("ParenExpr", "ImplicitCastExpr") and len(kids(c)) == 1:
+            c = kids(c)[0]
+        if c.get("kind") == "BinaryOperator" and c.get("opcode") in ("||", "&&"):
+            a, b = kids(c)
+            an = [(y.get("referencedDecl") or {}).get("name") for y, _ in astutil.walk(a)]
+            bn = [y.get("name") for y, _ in astutil.walk(b) if y.get("kind") == "MemberExpr"] + \
+                 [(y.get("referencedDecl") or {}).get("name") for y, _ in astutil.walk(b)]
+            bb = b
+            while bb.get("kind") in ("ParenExpr", "ImplicitCastExpr") and len(kids(bb)) == 1:
+                bb = kids(bb)[0]
+            if "bHaveTasks" in an and len([x for x in an if x]) == 1 and bb.get("kind") == "BinaryOperator" and bb.get("opcode") == "<" \
+                    and "m_NumThreadsWaiting" in bn and "threadsRunning" in bn:
+                # the body must run TryRunTask into bHaveTasks
+                if any(x.get("kind") == "CallExpr" or x.get("kind") == "CXXMemberCallExpr" and callee(x) == "TryRunTask" for x, _ in astutil.walk(loops[0])):
+                    cond = "LOr" if c["opcode"] == "||" else "LAnd"
+    sd = method("WaitforAllAndShutdown")
+    steps = []
+    if sd is not None:
+        body = [c for c in kids(sd) if c.get("kind") == "CompoundStmt"][0]
+        for st in kids(body):
+            if st.get("kind") == "CXXMemberCallExpr" and callee(st) == "WaitforAll":
+                steps.append("SdDrain")
+            elif st.get("kind") == "CXXMemberCallExpr" and callee(st) == "StopThreads":
+                steps.append("SdStopThreads")
+            elif st.get("kind") == "CXXDeleteExpr":
+                steps.append("SdFreePipes")
+            elif st.get("kind") == "BinaryOperator" and st.get("opcode") == "=" and \
+                    any(y.get("kind") in ("IntegerLiteral", "GNUNullExpr", "CXXNullPtrLiteralExpr") for y, _ in astutil.walk(kids(st)[1])):
+                continue          # pointer = 0 after the delete
+            else:
+                steps.append("SdOther")
+    else:
+        steps = ["SdOther"]
+    dt = method("~TaskScheduler", "CXXDestructorDecl")
+    dtor_ok = dt is not None and any(x.get("kind") == "CXXMemberCallExpr" and callee(x) == "WaitforAllAndShutdown" for x, _ in astutil.walk(dt))
+    # TaskSys.cpp
+    drains_first = False
+    for d in tsdocs:
+        for n, ps in astutil.walk(d):
+            if n.get("kind") == "FunctionDecl" and n.get("name") == "initTaskSystemInternal" and any(c.get("kind") == "CompoundStmt" for c in kids(n)):
+                body = [c for c in kids(n) if c.get("kind") == "CompoundStmt"][0]
+                for st in kids(body):
+                    if any(x.get("kind") == "CXXNewExpr" for x, _ in astutil.walk(st)):
+                        break
+                    if any(x.get("kind") == "CXXMemberCallExpr" and callee(x) in ("WaitforAll", "WaitforAllAndShutdown") for x, _ in astutil.walk(st)):
+                        drains_first = True
+    return cond, steps, dtor_ok, drains_first
+
+
 def coq_list(xs):
     return "[" + "; ".join(xs) + "]"
 
@@ -672,6 +747,9 @@ def main():
         pdocs = dump(repo, inc, os.path.join(repo, "rkcommon/tasking/detail/enkiTS/TaskScheduler.cpp"), "enki::LockLessMultiReadPipe",
                      os.path.join(work, "c02_pipe.json"))
         pipe = pipe_facts(pdocs)
+        tsdocs = dump(repo, inc, os.path.join(repo, "rkcommon/tasking/detail/TaskSys.cpp"), "rkcommon::tasking::detail",
+                      os.path.join(work, "c02_tasksys.json"), ["-DRKCOMMON_TASKING_INTERNAL"])
+        wcond, sdsteps, dtor_ok, drains_first = teardown_facts(docs2, tsdocs)
         a_unknown = async_unknown(docs)
     except FactError as e:
         sys.stderr.write("gen_facts: %s\n" % e)
@@ -700,6 +778,12 @@ Definition async_unknown_stmts_src : nat := %s.
 Definition pipe_front_claim_src : claim := %s.
 Definition pipe_back_claim_src : claim := %s.
 Definition pipe_write_guard_src : wguard := %s.
+(* teardown: WaitforAll's loop condition; the steps of WaitforAllAndShutdown; ~TaskScheduler calls it *)
+Definition waitforall_cond_src : lcond := %s.
+Definition shutdown_steps_src : list sdstep := %s.
+Definition dtor_shuts_down_src : bool := %s.
+(* initTaskSystemInternal drains the previous scheduler before g_ts is replaced (recorded; see the re-init finding / fix) *)
+Definition reinit_drains_old_first_src : bool := %s.
 
 (* async(): events on the heap packaged_task before / after schedule(closure), and in the closure *)
 Definition async_pre_src : list aev := %s.
@@ -718,12 +802,13 @@ Definition wait_fenced_src : bool := %s.
        coq_list(glue["tbb"][1]), coq_list(glue["omp"][1]), coq_list(glue["int"][1]), coq_list(glue["dbg"][1]),
        coq_list(glue["tbb"][2]), coq_list(glue["omp"][2]), coq_list(glue["int"][2]), coq_list(glue["dbg"][2]), a_unknown,
        pipe["WriterTryReadFront"], pipe["ReaderTryReadBack"], pipe["WriterTryWriteFront"],
+       wcond, coq_list(sdsteps), b(dtor_ok), b(drains_first),
        coq_list(pre), coq_list(post), coq_list(clos), coq_list(xs), seq, b(dec_after), b(wake_fenced), b(wait_fenced))
     old = open(out).read() if os.path.exists(out) else None
     if old != txt:
         open(out, "w").write(txt)
-    print("facts: order=%s task=%s get=%s dtor_waits=%s atomic=%s | async pre=%s post=%s body=%s | exec_range=%s tryrun=%s wake_fenced=%s wait_fenced=%s | flag stores=%s loads=%s | glue=%s async_unknown=%s pipe=%s"
-          % (order, task, kind, dtor_waits, flag_atomic, pre, post, clos, xs, seq, wake_fenced, wait_fenced, st_orders, ld_orders, glue, a_unknown, pipe))
+    print("facts: order=%s task=%s get=%s dtor_waits=%s atomic=%s | async pre=%s post=%s body=%s | exec_range=%s tryrun=%s wake_fenced=%s wait_fenced=%s | flag stores=%s loads=%s | glue=%s async_unknown=%s pipe=%s teardown=%s"
+          % (order, task, kind, dtor_waits, flag_atomic, pre, post, clos, xs, seq, wake_fenced, wait_fenced, st_orders, ld_orders, glue, a_unknown, pipe, (wcond, sdsteps, dtor_ok, drains_first)))
 
 
 if __name__ == "__main__":
